@@ -313,6 +313,53 @@ pub fn check_c08(prog: &NetProgram, res: &NetResult, info: &mut RunInfo) {
     info.nontrivial = long_unordered_chain && !expected.is_empty();
 }
 
+// ---------------------------------------------------------------- C10 (net level)
+
+/// A network simulation that is paused (`dispatch_events_until`) and fed with messages from outside
+/// (`Runtime::add_message_onto`) against the uninterrupted run that finds the same messages in its event set from the
+/// start: every module receives the same messages at the same times, and both runs dispatch the same number of events
+/// and end at the same time. (The order inside one instant may differ: the messages were scheduled at different points.)
+pub fn check_c10_net(prog: &NetProgram, stepped: &NetResult, reference: &NetResult, info: &mut RunInfo) {
+    let prog = &normalise(prog);
+    if stepped.foreign || reference.foreign {
+        return;
+    }
+    if let Some(e) = &stepped.escaped_panic {
+        info.violate(Violation::new("C10", "panic", format!("the paused network simulation panicked: {e}")));
+        return;
+    }
+    if reference.escaped_panic.is_some() || reference.ok.is_none() {
+        return;
+    }
+    let Some(sok) = stepped.ok else {
+        info.violate(Violation::new("C10", "net-stepped-error", format!("the paused network simulation ended with errors {:?}, the uninterrupted one did not", stepped.errors)));
+        return;
+    };
+    let rok = reference.ok.unwrap();
+    let recv = |r: &NetResult| {
+        let mut v: Vec<(u16, u32, u64)> = r.trace.iter().filter_map(|x| if let Ev::Recv { uid, .. } = &x.ev { Some((x.m, *uid, x.t)) } else { None }).collect();
+        v.sort_unstable();
+        v
+    };
+    let (a, b) = (recv(stepped), recv(reference));
+    let injected = stepped.injected_at.iter().filter(|t| **t != u64::MAX).count() as u64;
+    info.probe_n("message_injected_while_paused", injected);
+    info.probe_n("message_injected_for_the_reported_instant", prog.injections.iter().zip(stepped.injected_at.iter()).filter(|(j, t)| j.delay_ns == 0 && **t != u64::MAX).count() as u64);
+    if a != b {
+        let d = a.iter().find(|x| !b.contains(x)).or_else(|| b.iter().find(|x| !a.contains(x)));
+        info.violate(Violation::new("C10", "net-deliveries", format!(
+            "paused run and uninterrupted run deliver different messages: {} vs {} deliveries, first difference (module, message, time) = {d:?}", a.len(), b.len())));
+        return;
+    }
+    if sok.1 != rok.1 || sok.0 != rok.0 || sok.2 != rok.2 {
+        info.violate(Violation::new("C10", "net-event-count", format!(
+            "paused run: end time {} ns, {} events dispatched, {} remaining; uninterrupted run with the same messages: end time {} ns, {} events, {} remaining", sok.0, sok.1, sok.2, rok.0, rok.1, rok.2)));
+        return;
+    }
+    info.events += sok.1 as u64;
+    info.nontrivial = injected > 0;
+}
+
 // ---------------------------------------------------------------- C07
 
 #[derive(Debug)]
